@@ -42,20 +42,21 @@ def preprocess_descriptors(rule, base_url, descriptors):
         if descriptor.type != 'declaration' or descriptor.important:
             continue
         tokens = remove_whitespace(descriptor.value)
+        name = descriptor.lower_name
         try:
-            if descriptor.name in NOT_PRINT_MEDIA:
+            if name in NOT_PRINT_MEDIA:
                 continue
-            elif descriptor.name not in DESCRIPTORS[rule]:
+            elif name not in DESCRIPTORS[rule]:
                 raise InvalidValues('descriptor not supported')
 
-            function = DESCRIPTORS[rule][descriptor.name]
+            function = DESCRIPTORS[rule][name]
             if function.wants_base_url:
                 value = function(tokens, base_url)
             else:
                 value = function(tokens)
             if value is None:
                 raise InvalidValues
-            result = ((descriptor.name, value),)
+            result = ((name, value),)
         except InvalidValues as exc:
             LOGGER.warning(
                 'Ignored `%s:%s` at %d:%d, %s.',
